@@ -71,8 +71,14 @@ def run(run: common.Run):
         case = gen_case(run, i)
         rng = run.rng(f'{i}-data')
         src_coarser = case['proc'] == 'src-coarser'
+        island = case['model'] == 'gain-offset' and case['i'] % 12 == 8 and not src_coarser
         src, ref = rasters.pair_geometry(rng, case['family'], 'auto', max_src=30 if not src_coarser else 16,
                                          margin=(1, 3), avoid_aligned_edges=True)
+        for _ in range(60):
+            if not island or (src.px < ref.px and src.h >= (max(case['kernel']) + 3) * ref.py // src.py + 14):
+                break
+            src, ref = rasters.pair_geometry(rng, 'dyadic', 'auto', max_src=72, margin=(1, 3), avoid_aligned_edges=True)
+            case['family'] = 'dyadic'
         if src_coarser == (src.px <= ref.px) and src.px != ref.px:
             # swap roles: make the source the coarser grid, placed inside the (finer) reference
             ps, pr = max(src.px, ref.px), min(src.px, ref.px)
@@ -107,7 +113,7 @@ def run(run: common.Run):
             sv = make_valid(rng, src.h, src.w, case['mask'])
             if sv.sum() < 12:
                 sv[:] = True
-            if case['model'] == 'gain-offset' and case['i'] % 2 == 1:
+            if case['model'] == 'gain-offset' and (case['i'] % 2 == 1 or case['i'] % 12 == 2):
                 # a flat (saturated) patch of the source wider than the kernel: the least-squares fit has no solution inside it, the
                 # parameters there are in-painted (default threshold) - offset from the neighbours, gain re-estimated from the window
                 # means - and the relation must still be recovered in place
@@ -119,6 +125,17 @@ def run(run: common.Run):
                     s[:, r0:r0 + ph_, c0:c0 + pw_] = rng.randint(30, 190)
                     sv[r0:r0 + ph_, c0:c0 + pw_] = True
                     run.hist['gain-offset: source with a flat patch wider than the kernel (in-painted parameters)'] += 1
+            if island:
+                # an island: one valid source pixel more than a kernel away from every other valid pixel (single block).  Its kernels
+                # hold one source value only - no least-squares solution - and are in-painted from the distant well-modelled ones
+                # (default threshold); the relation must still be recovered at the island
+                kh, kw = case['kernel']
+                gap = (max(kh, kw) + 3) * ref.py // src.py + 2
+                if src.h - gap - 6 >= 6:
+                    sv[src.h - gap - 1:, :] = False
+                    sv[src.h - 2, src.w // 2] = True
+                    case['halvings'] = 0
+                    run.hist['gain-offset: isolated valid pixel beyond the kernel reach (in-painted from afar)'] += 1
             req = [resamp.model_resample_line('average', src, ref, s[b], sv) for b in range(nb)]
             base = dict(src=s, sv=sv)
         else:
